@@ -1,5 +1,6 @@
 import GdcVerif.Driver.Util
 import GdcVerif.Model.Htj2k
+import GdcVerif.Model.Htj2kBlock
 namespace Drv.Htj2k
 open Drv
 
@@ -137,6 +138,31 @@ def step? : List String → Option String
       let m := (({} : Htj2k.MsWriter).encodeAll (pairs l))
       s!"ok {bytesToHex m.buf} {bytesToHex m.terminate}"
     | none => "bad-op"
+  | ["ht-enc", w, h, kmax, vs] =>
+    some <| match nats? [w, h, kmax], parseInts vs with
+    | some [w, h, kmax], some vs =>
+      match Htj2k.htEncodeBlock kmax w h vs with
+      | some bs => "ok " ++ bytesToHex bs
+      | none => "nil"
+    | _, _ => "bad-op"
+  | ["ht-dec", w, h, ke, kd, vs] =>
+    some <| match nats? [w, h, ke, kd], parseInts vs with
+    | some [w, h, ke, kd], some vs =>
+      match Htj2k.htEncodeState ke w h vs with
+      | none => "ok " ++ intsToStr (List.replicate (w * h) 0)
+      | some e =>
+        match Htj2k.htDecodeFromEnc kd w h e with
+        | some out => "ok " ++ intsToStr out
+        | none => "err"
+    | _, _ => "bad-op"
+  | ["htj2k-vlc-enc", t, idx] =>
+    some <| match nats? [t, idx] with
+    | some [t, idx] => s!"ok {Htj2k.encEntry (if t = 0 then Htj2k.vlcRows0 else Htj2k.vlcRows1) (idx / 256) (idx / 16 % 16) (idx % 16)}"
+    | _ => "bad-op"
+  | ["htj2k-vlc-dec", t, idx] =>
+    some <| match nats? [t, idx] with
+    | some [t, idx] => s!"ok {Htj2k.decEntry (if t = 0 then Htj2k.vlcRows0 else Htj2k.vlcRows1) (idx / 128) (idx % 128)}"
+    | _ => "bad-op"
   | ["htj2k-signmag", kmax, v] =>
     some <| match kmax.toNat?, v.toInt? with
     | some k, some v => s!"ok {Htj2k.fromSignMag k (Htj2k.toSignMag k v)}"
